@@ -693,7 +693,7 @@ func stateBeginArrayItemOrEmpty(s *Scanner, c byte) state {
 	if c == ']' {
 		return stateFoundArrayEnd(s)
 	}
-	if s.annotation == annotationNone {
+	if s.annotation == annotationNone && !bytes.IsBlank(c) {
 		s.context.ArrayHasItem = true
 	}
 	return stateBeginValue(s, c)
